@@ -166,6 +166,7 @@ class ExecEnv:
         self.gap_mean = 4
         self.relevant = lambda code: False
         self.bodies: list[BodyThread] = []
+        self.in_worker_process = 0  # > 0 while the body of a PROCESS pool task runs (it runs in a child process)
 
     # -- event machinery ------------------------------------------------------------------
     def enabled(self):
@@ -306,7 +307,13 @@ def make_pool_class(env: ExecEnv, kind: str):
                 do_pickle = env.do_pickle and kind == "process"  # threads share the objects themselves
                 if do_pickle:
                     fn, args, kwargs = pickle.loads(pickle.dumps((fn, args, kwargs)))
-                out = fn(*args, **kwargs)
+                if kind == "process":
+                    env.in_worker_process += 1
+                try:
+                    out = fn(*args, **kwargs)
+                finally:
+                    if kind == "process":
+                        env.in_worker_process -= 1
                 if do_pickle:
                     try:
                         out = pickle.loads(pickle.dumps(out))
